@@ -47,6 +47,25 @@ pub fn run(out: &mut Out, thorough: bool, seed: u64, _extra: &[String]) {
                 let v = slot_vec(&mut r, n, t, kind);
                 let p = enc.encode_new(&v);
                 out.case(&format!("batch_encode {} {} {}", k, t, fl(&v)), &format!("vec{}-{}", kind, cls), || fl(p.data()));
+                // the destination forms: a REUSED destination (full of unrelated non-zero data, or shorter / longer than N) must give
+                // the same polynomial as a fresh one, and a reused decode buffer the same slots
+                {
+                    let mut dest = enc.encode_new(&slot_vec(&mut r, n, t, 0));
+                    enc.encode(&v, &mut dest);
+                    out.case(&format!("batch_encode {} {} {}", k, t, fl(&v)), &format!("reuse-vec{}-{}", kind, cls), || fl(dest.data()));
+                    let mut d2 = Plaintext::new(); d2.resize(r.range(1, 2 * n as u64) as usize); for x in d2.data_mut().iter_mut() { *x = 1 + r.below(t - 1); }
+                    let same = std::panic::catch_unwind(std::panic::AssertUnwindSafe(|| { enc.encode(&v, &mut d2); d2.data() == p.data() })).unwrap_or(false);
+                    let mut buf: Vec<u64> = (0..r.range(0, 2 * n as u64)).map(|_| r.word()).collect();
+                    enc.decode(&p, &mut buf);
+                    let mut pbuf: Vec<u64> = (0..r.range(0, 2 * n as u64)).map(|_| r.word()).collect();
+                    enc.decode_polynomial(&p, &mut pbuf);
+                    let mut pd = Plaintext::new(); pd.resize(n); for x in pd.data_mut().iter_mut() { *x = 1 + r.below(t - 1); }
+                    let rawp: Vec<u64> = (0..r.range(1, n as u64) as usize).map(|_| r.word()).collect();
+                    enc.encode_polynomial(&rawp, &mut pd);
+                    let polysame = pd.data() == enc.encode_polynomial_new(&rawp).data();
+                    if same && buf == enc.decode_new(&p) && pbuf == enc.decode_polynomial_new(&p) && polysame { out.raw(&format!("!OK batch_dest_forms k={} kind={} # dest-{}", k, kind, cls)); }
+                    else { out.raw(&format!("!FAIL batch_dest_forms {} {} {} :: encode/decode into a reused destination differs from the returning form (encode={} poly={}) # dest-{}", k, t, fl(&v), same, polysame, cls)); }
+                }
                 // decode of arbitrary plaintext polynomials (short ones included)
                 let pl = slot_vec(&mut r, n, t, kind);
                 let mut pp = Plaintext::new(); pp.resize(pl.len()); pp.data_mut().copy_from_slice(&pl);
